@@ -672,6 +672,19 @@ func (f *Factory) Concat(hi, lo *Term) *Term {
 	if hi.konst && lo.konst && w <= 64 {
 		return f.Const(w, hi.cv<<uint(lo.sort.W)|lo.cv)
 	}
+	// adjacent extracts of the same term fuse: x[h1:l1] ++ x[h2:l2] with l1 == h2+1
+	if hi.op == "extract" && lo.op == "extract" && hi.args[0] == lo.args[0] && hi.p2 == lo.p1+1 {
+		return f.Extract(hi.p1, lo.p2, hi.args[0])
+	}
+	// hi ++ (mid ++ lo') where hi and mid fuse
+	if hi.op == "extract" && lo.op == "concat" && lo.args[0].op == "extract" &&
+		hi.args[0] == lo.args[0].args[0] && hi.p2 == lo.args[0].p1+1 {
+		return f.Concat(f.Extract(hi.p1, lo.args[0].p2, hi.args[0]), lo.args[1])
+	}
+	// zero high part is a zero extension
+	if hi.konst && hi.cv == 0 && w <= 64 {
+		return f.ZExt(lo, w)
+	}
 	return f.mk("concat", BV(w), 0, 0, hi, lo)
 }
 
